@@ -187,3 +187,22 @@ Proof. eexists. split; [vm_compute; reflexivity|]. repeat split. Qed.
 Example orch_accepts_example :
   Orch.accepts ex_oc (filter observable ex_trace) = true.
 Proof. vm_compute. reflexivity. Qed.
+
+(* the interleaving behind seeded change C11-ind-1: the owner of a service that was added unstarted calls
+   Start after the run loop's Running()/isFinished checks and before the starter goroutine's own Start.
+   The starter's Start then fails ("already started", counted in ecx) and the goroutine STILL waits for the
+   service: its failure is in Wait's error.  (EEnvStart may occur at any point of any trace, so theorems
+   orch_started_at_most_once_and_awaited / orch_wait_error_complete cover every such placement.) *)
+Definition race_trace : list ev :=
+  [EAdd 1; EOrchStart; ELoopRemove; EChkRunning; EChkFinished; EEnvStart 1; EGStart 1; ERunBegin 1; ERunEnd 1;
+   EGWait 1; ELoopEmpty; ECancel; ELoopWaitCtx; EJoin; EWaitRet [1]].
+Example orch_owner_start_between_check_and_start :
+  exists s, run (Orch.step ex_oc) init race_trace = Some s /\ pc s = LDone /\ ecx s = 1
+            /\ result s = Some [1] /\ sv s 1 = SFinished.
+Proof. eexists. split; [vm_compute; reflexivity|]. repeat split. Qed.
+Example orch_accepts_owner_race : Orch.accepts ex_oc (filter observable race_trace) = true.
+Proof. vm_compute. reflexivity. Qed.
+(* a log in which Wait returns without that service's failure (what the seeded change produces) is rejected *)
+Example orch_rejects_owner_race_error_lost :
+  Orch.accepts ex_oc [EAdd 1; EOrchStart; EEnvStart 1; ERunBegin 1; ERunEnd 1; ECancel; EWaitRet []] = false.
+Proof. vm_compute. reflexivity. Qed.
